@@ -113,7 +113,7 @@ def rule_text(prog, rep):
     rep.floor("C02.TEXT", 3)
     push_token = prog.fn(r"parser::Parser::<'input>::push_token$")
     push_ignored = prog.fn(r"parser::Parser::<'input>::push_ignored$")
-    next_token = prog.fn(r"parser::Parser::<'input>::next_token$")
+    next_token = prog.inline(prog.fn(r"parser::Parser::<'input>::next_token$"), keep=r"Parser::<'input>::(push_err|limit_err|push_token|push_ignored|pop|peek\w*|bump|eat|err\w*)$|lexer::|syntax_tree::")
     tok = r"syntax_tree::SyntaxTreeBuilder::token$"
     cs = push_token.calls_to(tok)
     if len(cs) != 1:
@@ -172,7 +172,7 @@ def rule_text(prog, rep):
 
 def rule_lexerr(prog, rep):
     rep.floor("C02.LEXERR", 1)
-    fn = prog.fn(r"parser::Parser::<'input>::next_token$")
+    fn = prog.inline(prog.fn(r"parser::Parser::<'input>::next_token$"), keep=r"Parser::<'input>::(push_err|limit_err|push_token|push_ignored|pop|peek\w*|bump|eat|err\w*)$|lexer::|syntax_tree::")
     isempty = [c for c in fn.live_calls() if re.search(r"str::<impl str>::is_empty$|str::is_empty$", c.name)]
     pend = [c for c in fn.live_calls() if re.search(r"vec::Vec::<T, A>::push$", c.name) and (arg_path_s(fn, c, 0) or "").endswith(".pending")]
     errs = [c for c in fn.live_calls() if re.search(r"vec::Vec::<T, A>::push$", c.name) and (arg_path_s(fn, c, 0) or "").endswith(".errors")]
@@ -195,8 +195,12 @@ def rule_lexerr(prog, rep):
     err_edge = None
     for b in sorted(fn.live_blocks()):
         info = fn.switch_info(b)
-        if info and info.get("kind") == "enum" and info["adt"].endswith("result::Result") and "Err" in info["edges"] and nxt and re.search(r"call:.*next@%d" % nxt[0].block, norm_path(fn.apath(info["place"]))):
-            err_edge = info["edges"]["Err"]
+        if info and info.get("kind") == "enum" and info["adt"].endswith("result::Result") and "Err" in info["edges"] and nxt:
+            # the matched Result is the lexer item: directly, or through `?` / a copy
+            from ..flow import derives
+            _paths, dcalls = derives(fn, info["place"])
+            if re.search(r"call:.*next@%d" % nxt[0].block, norm_path(fn.apath(info["place"]))) or any(c is nxt[0] or (c.block == nxt[0].block) for c in dcalls):
+                err_edge = info["edges"]["Err"]
     if err_edge is None or len(nxt) != 1:
         rep.fail("UNDECIDED rule=C02.LEXERR next_token: match on the lexer item not recognised")
         return
